@@ -323,8 +323,10 @@ def threshold_form(cond, truth: bool, state_term) -> Optional[str]:
         op = {'<': '>', '<=': '>=', '>': '<', '>=': '<=', '==': '==', '!=': '!='}[op]
     if (a, b) != (1, -1):
         return None
-    # ops - max  op  -c
-    k = -c
+    # ops - max  op  -c      where `ops` is the counter as it was when the method was entered: the evaluator reads an attribute
+    # back as what the path stored into it, so the incremented counter appears as ops + 1 wherever it is used (loaded after the
+    # store, or kept in a local).  The thresholds below are stated for the *incremented* counter: (ops + 1) - max >= k.
+    k = -c + 1
     if op == '>=':
         return str(k)
     if op == '>':
